@@ -71,7 +71,8 @@ uint DAC_BVLS::access(uint pos, uint **seq) const {
   sequence[j] = levels[ini];
   l_seq = 1;
 
-  while (bitget(((BitSequenceRG *)bS)->data, ini)) {
+  while ((j + 1 < (uint)nLevels) &&
+         bitget(((BitSequenceRG *)bS)->data, ini)) {
     rankini = bS->rank1(ini) - rankLevels[j];
     j++;
 
